@@ -8,6 +8,8 @@ pub mod c03;
 pub mod c04;
 pub mod c05;
 pub mod c06;
+pub mod c07;
+pub mod c08;
 pub mod cer;
 pub mod c10;
 
@@ -19,21 +21,25 @@ pub fn dispatch(args: &Args) -> Option<Report> {
         "c04" => c04::run(args),
         "c05" => c05::run(args),
         "c06" => c06::run(args),
+        "c07" => c07::run(args),
+        "c08" => c08::run(args),
         "c10" => c10::run(args),
         _ => return None,
     })
 }
 
 /// one crash-isolated case (runs in a worker child)
-pub fn iso_case(args: &Args, _idx: u64) -> CaseOut {
+pub fn iso_case(args: &Args, idx: u64) -> CaseOut {
     match args.prop.as_str() {
+        "c08" => c08::iso_case(args, idx),
         _ => CaseOut { class: "unknown-prop".into(), ..Default::default() },
     }
 }
 
 /// describe case `idx` without running it (used to attribute deaths and hangs)
-pub fn iso_describe(args: &Args, _idx: u64) -> CaseDesc {
+pub fn iso_describe(args: &Args, idx: u64) -> CaseDesc {
     match args.prop.as_str() {
+        "c08" => c08::describe(args, idx),
         _ => CaseDesc { decoder: "?".into(), mutation: "?".into(), case: serde_json::Value::Null },
     }
 }
